@@ -30,7 +30,7 @@
 From Coq Require Import ZArith List Bool.
 From Emmet Require Import lib.Base lib.StrLit gen.GenLorem model.MarkupTokenizer model.MarkupParser model.MarkupConvert
      model.MarkupLorem model.MarkupResolve model.OutStream model.FormatHtml model.MarkupExpand.
-From Emmet Require Import proofs.LoremProofs proofs.LoremFill.
+From Emmet Require Import proofs.LoremProofs proofs.LoremFill proofs.LoremExpand.
 Import ListNotations.
 Local Open Scope Z_scope.
 
@@ -193,6 +193,16 @@ Theorem Lorem_text_node : forall cfg pn top nm v rp at_ ch sc lang minw maxw,
          end) v rp None ch sc.
 Proof. exact transform_pre_lorem. Qed.
 Print Assumptions Lorem_text_node.
+
+(* both passes composed, BEM addon on or off: a top-level lorem leaf (any written value, attributes, repeater) becomes
+   exactly the text node of the paragraph the generator returns on the stream of the configuration; with
+   Lorem_word_count_in_range that paragraph has min <= word_count <= max entries of the header's vocabulary *)
+Theorem Lorem_top_level_node : forall cfg nm v rp at_ sc lang minw maxw t rest,
+  lorem_header nm = LYes lang minw maxw ->
+  lorem_text lang minw maxw (match rp with None => true | Some r => (rvalue r =? 0)%N end) (mc_draws cfg) = LOk t rest ->
+  transform_list cfg [ANode nm v rp at_ [] sc] = Ok [ANode None (Some [VStr t]) rp None [] sc].
+Proof. exact lorem_top_leaf. Qed.
+Print Assumptions Lorem_top_level_node.
 
 (* the two passes test the same names: implicit_tag() never produces a lorem header *)
 Theorem Lorem_test_agree : forall cfg pn nm at_,
